@@ -529,8 +529,15 @@ def dispatch(E, c, tc, args):
         rg = deref(E, args[1])
         n_ = len(d.items) - d.pos
         kind_ = re.search(r"(RangeTo|RangeFrom|Range)<", tc[1]).group(1)
-        lo = 0 if kind_ == "RangeTo" else conc(E, deref(E, rg.fields[0]).t, "slice start")
-        hi = n_ if kind_ == "RangeFrom" else conc(E, deref(E, rg.fields[0 if kind_ == "RangeTo" else 1]).t, "slice end")
+        def bound(t_, what):
+            c_ = E.concretize(t_)
+            if c_ is not None:
+                return c_
+            # a symbolic bound: every position inside the slice, or beyond it (the indexing panics there) - a fork
+            k_ = E.choose([t_ == j_ for j_ in range(n_ + 1)] + [t_ > n_], what)
+            return k_ if k_ <= n_ else n_ + 1
+        lo = 0 if kind_ == "RangeTo" else bound(deref(E, rg.fields[0]).t, "slice start")
+        hi = n_ if kind_ == "RangeFrom" else bound(deref(E, rg.fields[0 if kind_ == "RangeTo" else 1]).t, "slice end")
         if lo > hi or hi > n_:
             raise PathAbort("panic", "range end index %d out of range for slice of length %d" % (hi, n_))
         return VRef(Cell(VSeq(list(d.items[d.pos + lo:d.pos + hi]), "vec"), "subslice"))
